@@ -171,6 +171,13 @@ def analyse(unit, vr, linemap, report, gen_path='', frame_type=None):
         tags = []
         if clause is not None:
             tags = list(clause['tags'])
+            # a clause declared on a trait method and failed by an impl method: the failure also concerns every property
+            # the impl method's own contract serves (e.g. the DNS dissectors' `tracks` step is the trait clause, tagged for
+            # the SMB property that introduced it, but a DNS impl failing it breaks the DNS property)
+            if clause.get('fn') and clause.get('fn') != fn:
+                for f_ in report['functions_verified']:
+                    if f_['fn'] == fn:
+                        tags = sorted(set(tags) | set(f_.get('tags') or []))
         if kind == 'precondition':
             # a callee's requires at a call site: the callee would panic / misbehave => safety (C01) unless tagged
             if not tags:
